@@ -135,6 +135,10 @@ EXPR_CONSTRUCTS = [
     ('and3', '(c() and y and t(9))'),
     ('mixed_bool', '(c() and y or not t(10))'),
     ('not', '(not c())'),
+    # `not` over a single comparison: folding it into the complementary comparator would bypass not_
+    ('not_is', '(not (y is None))'),
+    ('not_in', '(not (y in a))'),
+    ('not_lt', '(not (y < 3))'),
     ('ifexp', '(t(3) if c() else t(4))'),
     ('chain', '(0 <= y < 9)'),
     ('eq', '(y == 1)'),
@@ -143,7 +147,7 @@ EXPR_CONSTRUCTS = [
     ('comp', '[q for q in range(2) if q or c()]'),
 ]
 IFEXP_CONSTRUCTS = ('ifexp',)
-CALLFREE_CONSTRUCTS = ('chain', 'eq', 'ne')
+CALLFREE_CONSTRUCTS = ('chain', 'eq', 'ne', 'not_is', 'not_in', 'not_lt')
 
 # LIMITS (defects of the pinned tree outside C04, found while building this space; kept out of it):
 #  * `w: int = e` on a variable that becomes conditional / loop state: the generated `nonlocal w` makes the module
